@@ -60,6 +60,11 @@ func TestVerifSys(t *testing.T) {
 	for i := 0; i < n; i++ {
 		run(LostStatus(r.Rng))
 	}
+	// pause racing the first passes of the phase controllers
+	n = r.Pick(400, 4000)
+	for i := 0; i < n; i++ {
+		run(PauseRace(r.Rng))
+	}
 }
 
 // TestVerifSysSlices (property C04, stream "slices"): rolled-out ObjectSets keeping objects in
